@@ -9,7 +9,7 @@
 (***************************************************************************)
 EXTENDS HbTableOps, TLCExt, SequencesExt
 
-CONSTANTS NK, Poss, Tags, Es, OpNames
+CONSTANTS NK, Poss, Tags, Es, OpNames, MaxPa
 Keys == 0..(NK - 1)
 VARIABLES t, A, hp, chk
 vars == <<t, A, hp, chk>>
@@ -53,6 +53,32 @@ Next ==
   \/ \E op \in OpNames \cap {"t_shrink_to_fit", "clear"} : Step(Ev(op, -1, 0, 0, 0, <<>>, <<>>))
   \/ "retain" \in OpNames /\ \E K \in SUBSET Keys : Step(Ev("retain", -1, 0, 0, 0, SetToSeq(K), <<>>))
 Spec == Init /\ [][Next]_vars
+
+(* C04 for HashTable: the re-hash closure panics at its pa-th invocation (inside reserve / the growth of insert_unique and
+   entry / shrink).  Post-unwind: the table is structurally valid with exact accounting, holds nothing it did not hold
+   before, every element that disappeared was dropped by a scope guard exactly once, and a failed growth into a new
+   allocation changes nothing. *)
+KI2(S) == {<<x[1], x[2]>> : x \in S}
+FaultStep(e, pa) ==
+  LET h == IF e.k >= 0 THEN hp[e.k] ELSE [pos |-> 0, tag |-> 0]
+      c == TableOp(e, t, h, [pa |-> pa, hs |-> <<>>])
+      E1 == Elems(c.t)
+      gone == A \ E1
+  IN /\ c.st = "unwound"
+     /\ t' = c.t /\ A' = E1
+     /\ chk' = /\ KI2(E1) \subseteq KI2(A)
+               /\ c.dr = {x[2] : x \in gone} \ {0}
+               /\ c.t.mask = t.mask
+               /\ Cardinality(E1) = c.t.items
+     /\ UNCHANGED hp
+FNext ==
+  \/ Next
+  \/ \E k \in Keys, pa \in 1..MaxPa : \E id \in Fresh(k) : \E op \in OpNames \cap {"t_insert_unique", "t_entry_or_insert", "t_entry_insert"} :
+        FaultStep(Ev(op, k, id, 0, 0, <<>>, <<>>), pa)
+  \/ \E k \in Keys, pa \in 1..MaxPa : "t_entry_drop" \in OpNames /\ FaultStep(Ev("t_entry_drop", k, 0, 0, 0, <<>>, <<>>), pa)
+  \/ \E n \in {1, NK, 2 * NK}, pa \in 1..MaxPa : "reserve" \in OpNames /\ FaultStep(Ev("reserve", -1, 0, 0, n, <<>>, <<>>), pa)
+  \/ \E pa \in 1..MaxPa : "t_shrink_to_fit" \in OpNames /\ FaultStep(Ev("t_shrink_to_fit", -1, 0, 0, 0, <<>>, <<>>), pa)
+FSpec == Init /\ [][FNext]_vars
 
 Inv == InvTable(t, TRUE)
 Refines == Elems(t) = A /\ Cardinality(A) = t.items
